@@ -45,6 +45,22 @@ class C02(Prop):
             if kind == 'lp' and st in (2, 3):
                 return Outcome.fail('no_solution:lp:%s' % st,
                                     'RSOME counterpart reported status %s but the semi-infinite problem has optimum %.8g' % (st, ref), labels)
+            if kind == 'conic' and 'nfeasible' in str(st):
+                # ECOS calls the counterpart infeasible although the semi-infinite problem has an optimum: a verdict on the
+                # program only if a second cone solver (Gurobi, second-order cones) agrees
+                from rsome import grb_solver
+                from vf.quiet import quiet
+                kinds = set(t for s_ in case['sets'] for t in rosets.families_of(s_))
+                if not (kinds & {'kl'}) and not any(isinstance(p_.get('p'), float) for s_ in case['sets'] for p_ in s_['pieces'] if p_['t'] == 'pn'):
+                    try:
+                        with quiet():
+                            m.solve(grb_solver, display=False)
+                        st2 = getattr(m.solution, 'status', None)
+                    except Exception:      # noqa (licence size limit)
+                        st2 = None
+                    if st2 in (3, 4):
+                        return Outcome.fail('no_solution:conic', 'ECOS (%s) and Gurobi (status %s) both report the counterpart infeasible, but the '
+                                            'semi-infinite problem has optimum %.8g' % (st, st2, ref), labels)
             return Outcome.inconclusive('solver_status', labels)
         tol = (1e-6 if kind == 'lp' else 2e-4) * (1 + abs(ref))
         if abs(val - ref) > tol:
